@@ -123,7 +123,7 @@ func (this *code39Reader) DecodeRow(rowNumber int, row *gozxing.BitArray, hints 
 			nextStart, end, whiteSpaceAfterEnd, lastPatternSize)
 	}
 
-	if this.usingCheckDigit {
+	if this.usingCheckDigit && len(result) > 0 {
 		max := len(result) - 1
 		total := 0
 		for i := 0; i < max; i++ {
